@@ -123,6 +123,18 @@ class _ListStruct(list, ImmutableMixin, _IteratorProxyMixin):
         copied = super().copy()
         return deepcopy(copied) if self._is_immutable() else copied
 
+    def __reversed__(self):
+        return reversed(self.copy())
+
+    def __add__(self, other):
+        return self.copy() + other
+
+    def __mul__(self, n):
+        return self.copy() * n
+
+    def __rmul__(self, n):
+        return self.copy() * n
+
     def clear(self) -> None:
         self._raise_if_immutable()
         setattr(self._instance, getattr(self._field_definition, "_name", None), [])
@@ -287,6 +299,21 @@ class _DequeStruct(deque, ImmutableMixin, _IteratorProxyMixin):
         copied = deque(self)
         return deepcopy(copied) if self._is_immutable() else copied
 
+    def __copy__(self):
+        return self.copy()
+
+    def __reversed__(self):
+        return reversed(self.copy())
+
+    def __add__(self, other):
+        return self.copy() + other
+
+    def __mul__(self, n):
+        return self.copy() * n
+
+    def __rmul__(self, n):
+        return self.copy() * n
+
     def clear(self) -> None:
         self._raise_if_immutable()
         setattr(self._instance, getattr(self._field_definition, "_name", None), deque())
@@ -412,6 +439,20 @@ class _DictStruct(dict, ImmutableMixin):
             mydict=new_dict,
             name=self._name,
         )
+
+    def get(self, key, default=None):
+        return self[key] if key in self else default
+
+    def __iter__(self):
+        # Overriding __iter__ makes dict(x), {**x} and dict.update(x) read the values
+        # through keys()/__getitem__ (defensive copies) instead of CPython's direct copy.
+        return super().__iter__()
+
+    def __or__(self, other):
+        return self.copy() | other
+
+    def __ror__(self, other):
+        return other | self.copy()
 
     def items(self):
         return ((k, self._get_defensive_copy_if_needed(v)) for k, v in super().items())
